@@ -96,7 +96,7 @@ func NewWriter(o Opts, header, ctype string) (*Writer, error) {
 		return nil, err
 	}
 	w := &Writer{jf: jf, vf: vf, jw: bufio.NewWriter(jf), vw: bufio.NewWriter(vf), first: true}
-	fmt.Fprintf(w.vw, "%s\nDefinition cases : list (nat * %s) := [\n", header, ctype)
+	fmt.Fprintf(w.vw, "%s\nDefinition cases : list (N * %s) := [\n", header, ctype)
 	return w, nil
 }
 
@@ -115,7 +115,7 @@ func (w *Writer) Add(js map[string]any, coq string) int {
 		w.vw.WriteString(";\n")
 	}
 	w.first = false
-	fmt.Fprintf(w.vw, "(%d, %s)", idx, coq)
+	fmt.Fprintf(w.vw, "(%d%%N, %s)", idx, coq)
 	w.n++
 	return idx
 }
